@@ -3,6 +3,9 @@ use hyper::body::HttpBody;
 use hyper::Body;
 use rkyv::AlignedVec;
 
+/// The most capacity which is reserved on the word of the peer before the data has arrived.
+const MAX_PREALLOCATED_BYTES: u64 = 1 << 20;
+
 pub async fn to_aligned(
     mut body: Body,
 ) -> Result<AlignedVec, <Body as HttpBody>::Error> {
@@ -22,7 +25,12 @@ pub async fn to_aligned(
     };
 
     // With more than 1 buf, we gotta flatten into a Vec first.
-    let cap = first.remaining() + second.remaining() + body.size_hint().lower() as usize;
+    //
+    // The size hint is the length the peer announced (`content-length`) and nothing has
+    // been checked yet, so it only saves re-allocations up to a limit and is never
+    // trusted to size the buffer on it's own, the buffer grows with what really arrives.
+    let hint = body.size_hint().lower().min(MAX_PREALLOCATED_BYTES) as usize;
+    let cap = first.remaining() + second.remaining() + hint;
     let mut vec = AlignedVec::with_capacity(cap);
     vec.extend_from_slice(&first);
     vec.extend_from_slice(&second);
